@@ -139,8 +139,17 @@ Definition suite_C09 (inp obs : list tok) : verdict :=
   | TN md :: TN bytes :: TN ps :: ops =>
       match ops_of ops, parse_steps (length obs) obs with
       | Some ops', Some o =>
-          let c := {| c_mode := if md =? 0 then Debug else Release; c_bytes := bytes; c_ps := ps; c_ops := ops' |} in
-          if wf_case c && sane_case c then
+          (* md = build mode + 2 * constructor: 0 AtomicBitmap::new(bytes, ps); 1 <AtomicBitmap as NewBitmap>::with_len(bytes)
+             (model bm_with_len bytes = bm_new bytes host_page: the case carries ps = 4096); 2 AtomicBitmap::default()
+             (bm_default = bm_new 0 4096: the case carries bytes = 0, ps = 4096; growth is the history's enlarge ops) *)
+          let ctor := md / 2 in
+          let c := {| c_mode := if md mod 2 =? 0 then Debug else Release; c_bytes := bytes; c_ps := ps; c_ops := ops' |} in
+          let ctor_ok := match ctor with
+                         | 0 => true
+                         | 1 => ps =? host_page
+                         | 2 => (ps =? 4096) && (bytes =? 0)
+                         | _ => false end in
+          if ctor_ok && wf_case c && sane_case c then
             {| v_model := enc09 (run_C09 c); v_ok := ok_C09 c o; v_wellformed := true |}
           else malformed
       | _, _ => malformed
